@@ -7,11 +7,13 @@ func (cw *CodeWriter) WriteLeadingComments(comments []string) {
 
 	for i, comment := range comments {
 		isComment := len(comment) > 0
+		// no separator in front of the first text of the output (see flushPending)
+		atStart := cw.Builder.Len() == 0
 		if i == 0 {
-			if isComment {
+			if isComment && !atStart {
 				cw.emitRune(' ')
 			}
-		} else {
+		} else if !atStart {
 			cw.writeNewline()
 			cw.writeIndent()
 		}
